@@ -189,6 +189,8 @@ fn held(args: &Args, acc: &mut Acc, seed: u64, verbose: bool) {
     let scripts: Vec<Vec<Entry>> = (0..nsend).map(|_| (0..1 + rng.below(3)).map(|_| *rng.pick(&es)).collect()).collect();
     let mut rc = RunCfg::ser(seed, draw_strategy(&mut rng, nsend + 1, super::c01::PAUSE_SITES, 200));
     rc.trace = verbose && args.get("trace").is_some();
+    // (a send of this scenario takes a few dozen steps; 12 000 steps inside one send, for every sender, with the holder waiting for them: they wait for the holder)
+    rc.max_steps = 40_000; rc.per_op_step_bound = 12_000;
     let ch = chan::make(kind, n, m, false).expect("instantiation");
     let mut strm = ch.create_stream();
     let cfgj = J::obj().with("kind", J::s(kind.name())).with("N", J::i(n as i64)).with("M", J::i(m as i64)).with("scenario", J::s("held: N-1 events buffered + 1 slot reserved and kept; other threads send"))
